@@ -265,7 +265,30 @@ def catalogue_c07(tier):
     return cs
 
 
-CATALOGUES = {'C07': catalogue_c07, 'C08': catalogue_c08, 'C09': catalogue_c09, 'C15': catalogue_c15, 'C16': catalogue_c16, 'C18': catalogue_c18, 'C19': catalogue_c19, 'C05': catalogue_c05, 'C11': catalogue_c11, 'C12': catalogue_c12}
+def catalogue_c13(tier):
+    """connectables over a source that emits from its own thread (the sequential part of C13 cannot express these)"""
+    NS = lambda v: {'k': 'n', 'v': v}
+    PA = lambda ms: {'k': 's', 'v': ms}
+    slow = T('acold', 1, b=150, scripts=[[NS(11), PA(50), NS(12), PA(50), NS(13), PA(50), NS(14), PA(50), NS(15), PA(50), NS(16), PA(50), NS(17)]])
+    later = T('acold', 1, scripts=[[PA(50), NS(11), NS(12), NS(13)]])
+    cs = []
+    for kind in ['ref_count', 'replay']:
+        c = timed(case('c13/%s-slow-connect/take1' % kind, T('take', 1, ins=[T('conn', 1)]), [[SL(600)]], tags=['conn-stop']), 200)
+        c['conn'] = [{'kind': kind, 'term': slow}]
+        cs.append(c)
+        c = timed(case('c13/%s-slow-connect/unsub' % kind, T('conn', 1), [[SL(20), UNSUB1, SL(600)]], tags=['conn-stop']), 200)
+        c['conn'] = [{'kind': kind, 'term': slow}]
+        cs.append(c)
+    c = case('c13/replay-acold/leave-and-rejoin', T('conn', 1), [[SL(200), UNSUB1, SL(50), {'op': 'sub', 'u': 2}, SL(300)]], tags=['replay-once'])
+    c['conn'] = [{'kind': 'replay', 'term': later}]
+    cs.append(c)
+    c = case('c13/replay-acold/two-subscribers', T('conn', 1), [[SL(20), {'op': 'sub', 'u': 2}, SL(300)]], tags=['replay-once'])
+    c['conn'] = [{'kind': 'replay', 'term': later}]
+    cs.append(c)
+    return cs
+
+
+CATALOGUES = {'C07': catalogue_c07, 'C13': catalogue_c13, 'C08': catalogue_c08, 'C09': catalogue_c09, 'C15': catalogue_c15, 'C16': catalogue_c16, 'C18': catalogue_c18, 'C19': catalogue_c19, 'C05': catalogue_c05, 'C11': catalogue_c11, 'C12': catalogue_c12}
 
 
 # ------------------------------------------------------------------------------------------ engine
